@@ -480,25 +480,39 @@ def coq_fields(pairs):
     return "[" + "; ".join('("%s", "%s")' % (hx(k), hx(v)) for k, v in pairs) + "]"
 
 
-def coq_window_text(times, cases, fn="window_bad"):
+def runs_of(ix):
+    out = []
+    for i in ix:
+        if out and out[-1][0] + out[-1][1] == i:
+            out[-1][1] += 1
+        else:
+            out.append([i, 1])
+    return "[" + "; ".join("(%d%%N, %d%%N)" % (a, n) for a, n in out) + "]"
+
+
+def coq_window_text(times, cases):
     return (HDR + "Definition ts : list Z := [%s]%%Z.\n" % "; ".join(str(t) for t in times)
-            + "Definition cases : list (option Z * option Z * list N) := [\n%s\n].\n" % ";\n".join(
-                "(%s, %s, %s)" % (zopt(a), zopt(b), nlist(ix)) for a, b, ix in cases)
-            + "Eval vm_compute in (%s ts cases).\n" % fn)
+            + "Definition cases : list (option Z * option Z * list (N * N)) := [\n%s\n].\n" % ";\n".join(
+                "(%s, %s, %s)" % (zopt(a), zopt(b), runs_of(ix)) for a, b, ix in cases)
+            + "Eval vm_compute in (window_bad ts cases).\n")
 
 
-def run_coq(ctx, name, texts, what):
-    """texts: list of (text, keylist); returns list of (key, code) or None when evaluation failed"""
-    res = vlib.coq_eval_shards(os.path.join(CACHE, "cases", "C09", name), [t for t, _ in texts])
-    bad = []
-    for (text, keys), (rc, out) in zip(texts, res):
-        pairs = vlib.parse_eval_pairs(out) if rc == 0 else None
+def run_coq_all(ctx, groups):
+    """groups: {name: (what, [(text, keylist)])}; one parallel coqc run over every case file.
+    Returns {name: list of (key, code) | None when the evaluation failed}"""
+    flat = [(name, t, keys) for name, (what, texts) in groups.items() for t, keys in texts]
+    res = vlib.coq_eval_shards(os.path.join(CACHE, "cases", "C09"), [t for _, t, _ in flat])
+    out = {name: [] for name in groups}
+    for (name, text, keys), (rc, o) in zip(flat, res):
+        pairs = vlib.parse_eval_pairs(o) if rc == 0 else None
         if pairs is None:
-            ctx.obligation_broken("correspondence", "model evaluation (coqc on %s cases)" % what, out)
-            return None
-        for k, code in pairs:
-            bad.append((keys[k], code))
-    return bad
+            if out[name] is not None:
+                ctx.obligation_broken("correspondence", "model evaluation (coqc on %s cases)" % groups[name][0], o)
+            out[name] = None
+            continue
+        if out[name] is not None:
+            out[name] += [(keys[k], code) for k, code in pairs]
+    return out
 
 
 # ----------------------------------------------------------------------------- generators for the in-process / parser ties
@@ -579,7 +593,7 @@ def run(ctx):
     phase = {}
     t_phase = time.time()
     # ---- A
-    vlib.proof_stage(ctx, PROP_FILE, [], extra_targets=["Corr/C09.vo"])
+    vlib.proof_stage(ctx, PROP_FILE, ["nogen"], extra_targets=["Corr/C09.vo"])
     phase["proof"] = round(time.time() - t_phase, 1); t_phase = time.time()
     # ---- builds
     ok, log = vlib.build_s4()
@@ -706,8 +720,8 @@ def run(ctx):
     distinct = set()
     for job in jobs:
         fx = job["fx"]
-        if fx.get("slices") is None:
-            continue
+        if fx.get("slices") is None and job["rendering"] == "export":
+            continue            # the full export run of this journal already failed (reported above)
         A, B = job["A"], job["B"]
         exp = spec_idx(fx["times"], A, B)
         stats["runs"] += 1
@@ -758,36 +772,15 @@ def run(ctx):
         ctx.note("%d runs timed out" % runner.hangs)
 
     phase["compare"] = round(time.time() - t_phase, 1); t_phase = time.time()
-    # ---- B: model (Coq) vs binary
-    model_dis = 0
-    spec_dis_coq = 0
-    old_differs = 0
+    # ---- B: model (Coq) vs binary.  All case files are evaluated in one parallel coqc run.
+    groups = {}
     texts = []
     for fx in fxs:
         cs = window_cases[fx["name"]]
-        if cs:
-            texts.append((coq_window_text(fx["times"], [(a, b, ix) for a, b, ix, _ in cs]), [(fx, c) for c in cs]))
-    bad = run_coq(ctx, "window", texts, "window")
-    if bad is not None:
-        for (fx, (A, B, idx, job)), code in bad:
-            if code & 1:
-                model_dis += 1
-                if model_dis == 1:
-                    ctx.obligation_broken("correspondence", "s4 --journal-output export (entry sequence) vs Model.Journal.journal_run",
-                                          json.dumps(dict(case=case_of(job), impl=brief(idx))))
-            if code & 2:
-                spec_dis_coq += 1
-                if idx == spec_idx(fx["times"], A, B):
-                    ctx.obligation_broken("spec-evaluation", "python spec filter and Coq Spec.JournalSpec.window_idx disagree",
-                                          json.dumps(dict(A=A, B=B, fixture=fx["name"])))
-        # regression: the windows must distinguish the old stop test from the repaired one
-        otexts = [(t.replace("window_bad ts cases", "window_old_differs ts cases"), k) for t, k in texts]
-        oldbad = run_coq(ctx, "window_old", otexts, "window (old stop test)")
-        old_differs = len(oldbad or [])
-        if oldbad is not None and old_differs == 0:
-            ctx.obligation_broken("generator", "no generated window separates the old (exclusive) stop test from the repaired one", "")
-
-    # export / cat bytes of sampled entries vs the model; python parser twin vs Coq parser
+        for part in vlib.shard(cs, 4 if len(fx["times"]) > 1000 else 1) if cs else []:
+            texts.append((coq_window_text(fx["times"], [(a, b, ix) for a, b, ix, _ in part]), [(fx, c) for c in part]))
+    groups["window"] = ("window", texts)
+    # export / cat bytes of sampled entries vs the model
     sample = []
     for fx in fxs:
         if fx.get("slices") is None:
@@ -798,52 +791,34 @@ def run(ctx):
         pick = set(special[:8 if quick else 200] + nomsg[:3] + [0, n - 1] + rng.sample(range(n), min(n, 12 if quick else 300)))
         sample += [(fx, i) for i in sorted(pick)]
     etexts = []
-    for sh_ in vlib.shard(sample, vlib.NCPU):
+    for sh_ in vlib.shard(sample, 8) if sample else []:
         rows = []
         for fx, i in sh_:
             e = fx["entries"][i]
             rows.append('((%d)%%Z, "%s", %s, %s, "%s")' % (e["t"], hx(e["cursor"]), "None" if e["mono"] is None else "(Some %d%%N)" % e["mono"],
                                                            coq_fields(e["pairs"]), hx(fx["slices"][i])))
         etexts.append((HDR + "Definition cases : list (Z * string * option N * list (string * string) * string) := [\n%s\n].\nEval vm_compute in (export_bad cases).\n" % ";\n".join(rows), sh_))
-    ebad = run_coq(ctx, "export", etexts, "export")
-    export_dis = 0
-    for (fx, i), code in (ebad or []):
-        export_dis += 1
-        if export_dis == 1:
-            ctx.obligation_broken("correspondence", "s4 --journal-output export (entry bytes) vs Model.Journal.render_export / parse_export",
-                                  json.dumps(dict(fixture=fx["name"], entry_index=i, code=code, cursor=fx["entries"][i]["cursor"].decode())))
-    eold = run_coq(ctx, "export_old", [(t.replace("export_bad cases", "export_old_differs cases"), k) for t, k in etexts], "export (text-only printer)")
-    export_old_differs = len(eold or [])
-    if eold is not None and sample and export_old_differs == 0:
-        ctx.obligation_broken("generator", "no sampled entry separates the old text-only export printer from the repaired one", "")
-    # cat: entries printed alone (window A = B = t, unique time) are covered by the runs above; here the model on the same fields
+    groups["export"] = ("export", etexts)
     ctexts = []
-    cat_cases = [(fx, i) for fx, i in sample]
-    rows = ['(%s, "%s")' % (coq_fields(fx["entries"][i]["pairs"]), hx(fx["entries"][i]["cat"])) for fx, i in cat_cases]
-    for sh_ in vlib.shard(list(range(len(rows))), 4):
-        ctexts.append((HDR + "Definition cases : list (list (string * string) * string) := [\n%s\n].\nEval vm_compute in (cat_bad cases).\n" % ";\n".join(rows[k] for k in sh_), [cat_cases[k] for k in sh_]))
-    cbad = run_coq(ctx, "cat", ctexts, "cat")
-    for (fx, i), code in (cbad or [])[:1]:
-        ctx.obligation_broken("correspondence", "MESSAGE + newline (oracle) vs Model.Journal.render_cat", json.dumps(dict(fixture=fx["name"], entry_index=i)))
-
-    # parser twin vs Coq parser
+    rows = ['(%s, "%s")' % (coq_fields(fx["entries"][i]["pairs"]), hx(fx["entries"][i]["cat"])) for fx, i in sample]
+    for sh_ in vlib.shard(list(range(len(rows))), 4) if rows else []:
+        ctexts.append((HDR + "Definition cases : list (list (string * string) * string) := [\n%s\n].\nEval vm_compute in (cat_bad cases).\n" % ";\n".join(rows[k] for k in sh_), [sample[k] for k in sh_]))
+    groups["cat"] = ("cat", ctexts)
+    # python parser twin vs Coq parser
     blobs = [fx["slices"][i] for fx, i in sample]
     streams = gen_streams(rng, blobs, 250 if quick else 3000) if blobs else []
     ptexts = []
-    for sh_ in vlib.shard(list(range(len(streams))), vlib.NCPU):
+    for sh_ in vlib.shard(list(range(len(streams))), vlib.NCPU) if streams else []:
         rows = []
         for k in sh_:
             r = parse_export(streams[k])
             rows.append('("%s", %s)' % (hx(streams[k]), "None" if r is None else "(Some [%s])" % "; ".join(coq_fields(e) for e in r)))
         ptexts.append((HDR + "Definition cases : list (string * option (list (list (string * string)))) := [\n%s\n].\nEval vm_compute in (parse_bad cases).\n" % ";\n".join(rows), sh_))
-    pbad = run_coq(ctx, "parse", ptexts, "parser twin")
-    for k, code in (pbad or [])[:1]:
-        ctx.obligation_broken("correspondence", "python twin of parse_export vs Model.Journal.parse_export", json.dumps(dict(stream_hex=hx(streams[k]))))
+    groups["parse"] = ("parser twin", ptexts)
     parse_malformed = sum(1 for s in streams if parse_export(s) is None)
-
-    # text/binary rule: in-process export_data_is_text vs model text_safe (B) and vs the twin of systemd's test (C)
+    # text/binary rule: in-process export_data_is_text vs the twin of systemd's test (C) and vs model text_safe (B)
     ts_cases = 0
-    ts_dis = 0
+    objs, outl = [], []
     if okh:
         objs = gen_data_objects(rng, 1200 if quick else 20000)
         for fx in fxs:
@@ -852,6 +827,7 @@ def run(ctx):
         outl, err = vlib.harness("c09", [hx(o) for o in objs])
         if outl is None or len(outl) != len(objs):
             ctx.obligation_broken("correspondence", "harness c09 run", err)
+            outl = []
         else:
             ts_cases = len(objs)
             for o, r in zip(objs, outl):
@@ -859,16 +835,53 @@ def run(ctx):
                     ctx.failure(dict(data_hex=hx(o)), "a boolean", r, [])
                 elif (r == "1") != text_safe_twin(o):
                     ctx.failure(dict(data_hex=hx(o), what="export_data_is_text"), "text form allowed = %s (journalctl's utf8_is_printable_newline)" % text_safe_twin(o), r, [])
-            ttexts = []
             good = [k for k, r in enumerate(outl) if r in ("0", "1")]
-            for sh_ in vlib.shard(good, vlib.NCPU):
-                ttexts.append((HDR + "Definition cases : list (string * bool) := [\n%s\n].\nEval vm_compute in (textsafe_bad cases).\n" % ";\n".join(
-                    '("%s", %s)' % (hx(objs[k]), "true" if outl[k] == "1" else "false") for k in sh_), sh_))
-            tbad = run_coq(ctx, "textsafe", ttexts, "text_safe")
-            for k, code in (tbad or []):
-                ts_dis += 1
-                if ts_dis == 1:
-                    ctx.obligation_broken("correspondence", "export_data_is_text vs Model.Journal.text_safe", json.dumps(dict(data_hex=hx(objs[k]), impl=outl[k])))
+            groups["textsafe"] = ("text_safe", [(HDR + "Definition cases : list (string * bool) := [\n%s\n].\nEval vm_compute in (textsafe_bad cases).\n" % ";\n".join(
+                '("%s", %s)' % (hx(objs[k]), "true" if outl[k] == "1" else "false") for k in sh_), sh_) for sh_ in vlib.shard(good, 8)])
+
+    res = run_coq_all(ctx, groups)
+
+    model_dis = spec_dis_coq = old_differs = 0
+    for (fx, (A, B, idx, job)), code in (res["window"] or []):
+        if code & 1:
+            model_dis += 1
+            if model_dis == 1:
+                ctx.obligation_broken("correspondence", "s4 --journal-output export (entry sequence) vs Model.Journal.journal_run",
+                                      json.dumps(dict(case=case_of(job), impl=brief(idx))))
+        if code & 2:
+            spec_dis_coq += 1
+            if idx == spec_idx(fx["times"], A, B):
+                ctx.obligation_broken("spec-evaluation", "python spec filter and Coq Spec.JournalSpec.window_idx disagree",
+                                      json.dumps(dict(A=A, B=B, fixture=fx["name"])))
+        elif idx != spec_idx(fx["times"], A, B):
+            ctx.obligation_broken("spec-evaluation", "python spec filter and Coq Spec.JournalSpec.window_idx disagree",
+                                  json.dumps(dict(A=A, B=B, fixture=fx["name"])))
+        if code & 4:
+            old_differs += 1
+    if res["window"] is not None and texts and old_differs == 0:
+        # regression: the windows must distinguish the old (exclusive) stop test from the repaired one
+        ctx.obligation_broken("generator", "no generated window separates the old (exclusive) stop test from the repaired one", "")
+    export_dis = export_old_differs = 0
+    for (fx, i), code in (res["export"] or []):
+        if code & 3:
+            export_dis += 1
+            if export_dis == 1:
+                ctx.obligation_broken("correspondence", "s4 --journal-output export (entry bytes) vs Model.Journal.render_export / parse_export",
+                                      json.dumps(dict(fixture=fx["name"], entry_index=i, code=code, cursor=fx["entries"][i]["cursor"].decode())))
+        if code & 4:
+            export_old_differs += 1
+    if res["export"] is not None and sample and export_old_differs == 0:
+        ctx.obligation_broken("generator", "no sampled entry separates the old text-only export printer from the repaired one", "")
+    for (fx, i), code in (res["cat"] or [])[:1]:
+        ctx.obligation_broken("correspondence", "MESSAGE + newline (oracle) vs Model.Journal.render_cat", json.dumps(dict(fixture=fx["name"], entry_index=i)))
+    pbad = res["parse"]
+    for k, code in (pbad or [])[:1]:
+        ctx.obligation_broken("correspondence", "python twin of parse_export vs Model.Journal.parse_export", json.dumps(dict(stream_hex=hx(streams[k]))))
+    ts_dis = 0
+    for k, code in (res.get("textsafe") or []):
+        ts_dis += 1
+        if ts_dis == 1:
+            ctx.obligation_broken("correspondence", "export_data_is_text vs Model.Journal.text_safe", json.dumps(dict(data_hex=hx(objs[k]), impl=outl[k])))
 
     phase["model_evaluation"] = round(time.time() - t_phase, 1)
     # ---- evidence
@@ -946,7 +959,7 @@ def replay(ctx, path):
             continue
         if "entries" not in fx:
             load_oracle(fx)
-        path_ = c["file"] if os.path.exists(c["file"]) else fx["plain"]
+        path_ = dict(fx["containers"]).get(c["container"], fx["plain"])
         tz = None
         if c.get("tz_offset"):
             sgn = -1 if c["tz_offset"].startswith("-") else 1
@@ -961,6 +974,14 @@ def replay(ctx, path):
             gotc = None if sp is None else [fx["cursor_idx"].get(dict((k, v) for k, v, _ in f).get(b"__CURSOR")) for f, _, _ in sp]
             good = gotc == exp
             got = "malformed stream" if gotc is None else brief(gotc)
+            if good:
+                for (f, _, _), i in zip(sp, exp):
+                    e = fx["entries"][i]
+                    want = [(b"__CURSOR", e["cursor"]), (b"__REALTIME_TIMESTAMP", str(e["t"]).encode())] + \
+                           ([(b"__MONOTONIC_TIMESTAMP", str(e["mono"]).encode())] if e["mono"] is not None else []) + e["pairs"][:200]
+                    if [(k, v) for k, v, _ in f] != want:
+                        good, got = False, "fields of entry %d differ from the stored entry" % i
+                        break
         elif c["rendering"] == "verbose":
             why = match_verbose(job["out"], fx["entries"], exp)
             good, got = why is None, why
